@@ -339,6 +339,45 @@ def r4_apply(a, tier):
     if ok is False:
         rep.fail(rp.qualname, 'repr-not-forced', f'repr of a bold green style with colour disabled is {out!r}: the attributes are not written, reading it back '
                  f'gives a plain style', rp.loc)
+    # repr with a stored format spec: from_raw/parse_fmt read back the same text and the same spec, also when the spec's
+    # fill character is the separator the wrapper uses (text free of braces, colons, backslashes, quotes, control characters)
+    pf, fr = a.p.func(f'{STYLE}.parse_fmt'), a.p.func(f'{STYLE}.from_raw')
+    rx = _tty_regexes(a)
+    for value, spec, styled in itertools.product(('ab', 'x'), ('>6', ':>10', ':^8', '*<7', ':', '.3', None), (False, True)):
+        st = _style_obj({'bold': True} if styled else {}, 2 if styled else -1, -1, enabled=False, fmt=spec)
+        object.__setattr__(st, 'value', value)
+        object.__setattr__(st, '_methods', {'apply_style': asf.node})
+        ev = _with_helpers(a, _Ev({'RGB': RGBv}, calls={'tty_escape': lambda t: t, 'repr': repr}))
+        made: list = []
+        cls, re_mod, colour = Obj(), Obj(), Obj()
+
+        def methods(recv, name, args, kwargs, cls=cls, re_mod=re_mod, colour=colour):
+            if isinstance(recv, re.Pattern) and name in ('search', 'sub', 'match', 'fullmatch'):
+                return getattr(recv, name)(*args, **kwargs)
+            if isinstance(recv, re.Match) and name in ('group', 'groups'):
+                return getattr(recv, name)(*args)
+            if recv is re_mod and name in ('match', 'search', 'fullmatch', 'compile'):
+                return getattr(re, name)(*args, **kwargs)
+            if recv is colour and name == 'default':
+                return 'DEFAULT'
+            if recv is cls and name == 'parse_fmt':
+                return ev2.call_function(pf.node, [cls, *args], kwargs)
+            return NotImplemented
+        ev2 = _with_helpers(a, _Ev({'RGB': RGBv, 'SGR_RE': re.compile(rx['SGR_RE']), 'ANSI_RE': re.compile(rx['ANSI_RE']), 're': re_mod, 'Color': colour},
+                                   calls={'tty_unescape': lambda t: t, 'cls': lambda *x, **k: made.append((x, k)) or 'STYLE'}, methods=methods))
+        try:
+            written = ev.call_function(rp.node, [st])
+            ev2.call_function(fr.node, [cls, written.encode().decode('unicode_escape')])
+        except Unsupported as e:
+            raise AnalysisError(f'cannot interpret the repr round trip: {e}') from e
+        want_kw = {'bold': True, 'fg': 2} if styled else {}
+        got_kw = {k: v for k, v in made[0][1].items() if k not in ('color', 'fmt')} if len(made) == 1 else None
+        ok = len(made) == 1 and made[0][0] == (value,) and made[0][1].get('fmt') == spec and got_kw == want_kw
+        rep.add({'repr_of': f'{value!r} with stored spec {spec!r}, {"bold green" if styled else "no attributes"}', 'written': written,
+                 'read_back': str(made), 'ok': ok})
+        if not ok:
+            rep.fail(pf.qualname, f'repr-fmt:{value!r}:{spec!r}:{styled}', f'a style over {value!r} with stored spec {spec!r} is written by repr as {written!r} and read '
+                     f'back by from_raw as {made}; required: the text {value!r}, fmt={spec!r} and attributes {want_kw}', pf.loc)
     return rep
 
 
